@@ -352,6 +352,24 @@ CHECKS['C18'] = ('model_checking',
   'claim; nnx.Rngs / clone / reseed / merge and Linen make_rng are trusted (C03 / C09). One '
   'configuration (same name in two collections) is listed in known_findings.json.', '§4 C18')
 
+CHECKS['C13'] = ('exploration',
+  'bounded-exhaustive configuration / mask / length enumeration on the real Linen + NNX code with '
+  'differential oracles (float64 NumPy reference, plain Python loop over the real cell, '
+  'paired-input bitwise non-interference)',
+  'For every enumerated case non-interference (masked, post-causal, unwritten cache slots, '
+  'positions >= seq_length) must hold bitwise, stepwise must equal whole-sequence to 1e-6, weights '
+  'must equal the float64 softmax over allowed keys to 1e-6, cells must match their documented '
+  'recurrences to 1e-5, and Linen must match NNX on copied parameters. The space: attention heads x '
+  'feature sizes x T in 1..4 x batch {(), (2,)} x bias x every boolean T x T mask for T <= 3 plus '
+  'structured masks for T = 4; decode with every lower-triangular user mask for T <= 3; RNN: every '
+  'cell x T x batch x every seq_lengths vector x reverse x keep_order x time_major x return_carry, '
+  'plus Bidirectional. Perturbations are +-1e3 and the value of another position, one position at '
+  'a time and all at once, plus +1e6 all at once.',
+  'The quick tier is a documented fraction of this space (bounds.quick_restrictions), thorough the '
+  'full grid; sweeps run under jax.jit with eager base cases; data values come from a fixed pool, so '
+  'the claim is about structure, not all real inputs; fully masked rows and RNN outputs at '
+  'positions >= seq_length are left open by the property.', '§4 C13')
+
 NOT_APPLICABLE = {}
 
 
